@@ -4,6 +4,7 @@ from tools.smtpgen import step, script_field
 from tools.lv import hexs, hexlist
 
 LEVEL = "proof"
+RETRY_TIMING = True
 JOBS = 16
 CORRESPONDENCE = ("Model/Transport.lean (sequential pool: acquire with NOOP probe, open, send, recycle, drop) + Model/Client.lean with a "
                   "silent peer (`stallAtEnd`, counter of reads that waited) vs SmtpTransport and tokio AsyncSmtpTransport with a timeout T "
@@ -61,6 +62,11 @@ def gen(tier, rng):
     for client in "sa":
         cases.append(pool_case(client, 200, 1, False, 2, "a@b.c", ["x@y.z"], b"m\r\n", [happy(1) + [step(b"250 ok\r\n")] + happy(1)[2:]]))
     return cases
+
+
+def timing_dependent(case):
+    # a real client against a real peer with read timeouts: a disagreement is re-run alone before it counts
+    return case.split("\t")[0] in ("pool", "wstall", "client", "tls", "sched")
 
 
 def nontrivial(case):
